@@ -152,3 +152,19 @@ package objects
 //@   loop 1 invariant [C17] dec != nil && cap(dec.buf) >= 4 && len(dec.buf) >= 4 && 0 <= i && i <= n && len(blk) == i && 4 + 4*i <= total && fresh(blk) && total == pos(r) - old(pos(r))
 //@   loop 1 invariant [C17] allocated <= old(allocated) + 100 + 120*cap(blk) + 1000000*i + 81*total && cap(blk) <= max(4096, 2*i + 1024)
 //@   loop 1 decreases n - i
+
+// The "columns" field decoder of TableProfile.ReadFrom (5th closure): field numbers read from the input index the list
+// of field names read earlier; every number is checked against that list before use.
+//@ func (*TableProfile).ReadFrom$5
+//@   props C17
+//@   requires p != nil && t != nil && p.r != nil && p.buf != nil && 0 <= p.pos && p.pos <= pos(p.r) && pos(p.r) <= streamLen(p.r)
+//@   requires forall(k, member(profileFieldMap, k) ==> profileFieldMap[k] != nil)
+//@   dynamic modifies p.pos, region(bufreg(p.buf)), stream(p.r), t.Columns[i].*
+//@   dynamic ensures 0 <= p.pos && p.pos <= pos(p.r) && pos(p.r) >= old(pos(p.r)) && pos(p.r) <= streamLen(p.r)
+//@   loop 1 invariant i <= count && len(t.Columns) == i && nFields == len(fields) % 65536 && t != nil && 0 <= p.pos && p.pos <= pos(p.r) && pos(p.r) <= streamLen(p.r) && p.r != nil && p.buf != nil
+//@   loop 1 decreases count - i
+//@   loop 2 invariant i < count && len(t.Columns) == i + 1
+//@   loop 2 invariant nFields == len(fields) % 65536 && t != nil
+//@   loop 2 invariant t.Columns[i] != nil
+//@   loop 2 invariant 0 <= p.pos && p.pos <= pos(p.r) && pos(p.r) <= streamLen(p.r) && p.r != nil && p.buf != nil
+//@   loop 2 decreases streamLen(p.r) - pos(p.r)
